@@ -34,11 +34,11 @@ func short(s string, n int) string {
 }
 
 type obs struct {
-	idx int
-	c   Case
-	res result
-	coq string // the case as a Coq term (empty: not comparable with the model)
-	runaway bool // a goroutine of the code under test is still running (cannot be stopped): end the run early
+	idx     int
+	c       Case
+	res     result
+	coq     string // the case as a Coq term (empty: not comparable with the model)
+	runaway bool   // a goroutine of the code under test is still running (cannot be stopped): end the run early
 }
 
 func runCase(run *vh.Run, idx int, c Case) *obs {
@@ -113,7 +113,7 @@ func runCase(run *vh.Run, idx int, c Case) *obs {
 	defer func() {
 		// the Coq case: structured query, reference available, every union selection covers all members (the
 		// null thunder's executor renders for an uncovered member, DESIGN F5, is not part of the model's contract)
-		if searching || c.QueryText != "" || c.Mutation || timedOut || g.sync.last == nil {
+		if searching || c.QueryText != "" || c.Mutation || c.Wide || timedOut || g.sync.last == nil {
 			return
 		}
 		// coverage of the unions once the directives are applied (a member fragment left without content covers nothing)
@@ -202,6 +202,9 @@ func runCase(run *vh.Run, idx int, c Case) *obs {
 		case !isHop(s.Text) && c.Mutation && s.Kind != "mutation":
 			failCapped(run, idx, "mutation-root-step-sent-as-"+s.Kind, fmt.Sprintf("service %s got a %s {%s}; request: %s", s.Service, s.Kind, short(s.Text, 300), short(text, 300)), c)
 		}
+	}
+	if c.Wide {
+		run.Hist("query:wide-list-under-a-hop")
 	}
 	if c.Mutation {
 		run.Hist("query:mutation")
